@@ -6,11 +6,26 @@ import PetgraphModel.Model.C16Artic
 /-
 C16 driver.  Requests (after a `graph …` line):
 
-  sf <root>     dominators::simple_fast(g, root) observed through every accessor:
+  sf <root> [clone|clonefrom]
+                dominators::simple_fast(g, root) observed through every accessor (wave 6: also through
+                `Dominators::clone()` with the original dropped, and through `clone_from` onto the result
+                of another root — the observation path does not change the expected answer):
                 `root=<r> <rec>;<rec>;…`, one record per node `b` (ascending abstract id)
                 `b:<immediate_dominator>:<dominators>:<strict_dominators>:<immediately_dominated_by>`
                 with `x` = None, lists `a/b/c` (`-` = empty); `immediately_dominated_by` sorted
   ap            articulation_points(g): sorted node list
+  law <name> …  a law checked by the harness against the implementation itself (iterator laws of
+                `DominatorsIter` / `DominatedByIter`, ids that are not nodes have no entry, `Debug`):
+                the answer must be `ok` (`VIOLATED <why>` is a SPECFAIL)
+
+Wave 6: the `graph` line carries `base=<storage> ad=<adaptor> via=neighbors|edges`.  The first line of a
+case is what `neighbors()` enumerates (that is what `simple_fast` walks); when `edges().target()` — what
+`articulation_points` walks — enumerates something else, a second `graph … via=edges` line precedes `ap`.
+Open finding D23 (`UndirectedAdaptor::edges` reports an incoming edge with its stored orientation, so its
+`target()` is the node itself): such a view fails `viewOkB`; it is classified `KNOWN D23` only when the
+adaptor is `UndirectedAdaptor`, `via=edges`, and every row is the abstract row with some entries replaced
+by the node itself (`d23ViewB`); the following `ap` answer is judged against the abstract graph as always
+and a wrong answer is `KNOWN D23` only if it is exactly what the mirror model computes on that view.
 
 `panic` as answer = the call panicked.
 
@@ -32,6 +47,10 @@ open PetgraphModel PetgraphModel.Oracle PetgraphModel.C16O PetgraphModel.C16M
 structure DState where
   v : View := default
   ok : Bool := false
+  /-- `some "D23"`: the current view is the one `UndirectedAdaptor::edges` presents (open finding D23) -/
+  known : Option String := none
+  /-- D6: the view the mirror model runs on -/
+  mv : View := default
 
 /-- the view's neighbour lists describe the abstract graph (as multisets) -/
 def viewOkB (v : View) : Bool :=
@@ -66,6 +85,41 @@ def sfScopeB (v : View) (r : Nat) : Bool := graphScopeB v && rootOkB v r
 
 /-- every hypothesis of `C16_articulation` (`C16_ap_scope_check`) -/
 def apScopeB (v : View) : Bool := graphScopeB v && !v.g.directed && indexOkB v
+
+/-! ### open finding D23: the view `UndirectedAdaptor::edges` presents -/
+
+/-- `a` is a sub-multiset of `b` -/
+def subMultiset : List Nat → List Nat → Bool
+  | [], _ => true
+  | x :: xs, b => b.contains x && subMultiset xs (b.erase x)
+
+/-- row of `a` as D23 produces it: as long as the abstract row, and what is not the node itself is part
+of the abstract row (some incident edges are reported with `target() = a`) -/
+def d23RowB (a : Nat) (row abstractRow : List Nat) : Bool :=
+  row.length == abstractRow.length &&
+  subMultiset (row.filter (· != a)) (abstractRow.filter (· != a))
+
+/-- the whole view has the D23 shape (and is otherwise sane) -/
+def d23ViewB (v : View) : Bool :=
+  wfB v.g && rowsOkB v && !v.g.directed && v.g.nodes.all fun a => d23RowB a (v.succ a) (v.g.succ a)
+
+/-! ### open finding D6 seen through `UndirectedAdaptor(NodeFiltered(&MatrixGraph))`
+
+`MatrixGraph::edges_directed(a, Incoming)` yields `(a, predecessor)`; `NodeFiltered` tests the `source()` of
+an incoming edge against the node filter — here that is `a` itself — so edges from excluded predecessors
+pass, and `UndirectedAdaptor::edges` hands them to `articulation_points`. -/
+
+/-- the rows restricted to the nodes are the abstract rows; what else is enumerated is not a node -/
+def d6ViewB (v : View) : Bool :=
+  wfB v.g && rowsOkB v && !v.g.directed &&
+  (v.g.nodes.all fun a => sameSet ((v.succ a).filter v.g.nodes.contains) (v.g.succ a)) &&
+  (v.g.nodes.any fun a => (v.succ a).any fun t => !v.g.nodes.contains t)
+
+/-- the view the mirror model runs on: `to_index` of the leaked ids added, fuel for the leaked entries -/
+def d6ModelView (v : View) (xix : List (Nat × Nat)) : View :=
+  let leaked := (v.g.nodes.map fun a => ((v.succ a).filter fun t => !v.g.nodes.contains t).length).foldl (· + ·) 0
+  { v with ix := v.ix ++ xix,
+           g := { v.g with edges := v.g.edges ++ List.replicate leaked ⟨999999, 999999, 999999, 0⟩ } }
 
 def showSl (l : List Nat) : String :=
   if l.isEmpty then "-" else String.intercalate "/" (l.map toString)
@@ -205,6 +259,43 @@ def stepAp (v : View) (impl : String) : String :=
   if impl == "panic" then "SPECFAIL articulation_points panicked" else
   verdict (judgeAp v.g (parseNats impl)) (modelAp v) impl
 
+/-- an `ap` line on a view classified as D23: the spec-level judge is the same (it never looks at the
+view); a rejected answer is the known finding only if it is exactly the mirror model's answer on that view -/
+def stepApKnown (v : View) (impl : String) : String :=
+  if v.g.directed then "SPECFAIL bad request: articulation points are judged on undirected graphs" else
+  if !indexOkB v then apScopeFail v else
+  if impl == "panic" then "SPECFAIL articulation_points panicked" else
+  match judgeAp v.g (parseNats impl) with
+  | none => cmpExact (modelAp v) impl
+  | some "ORACLE-FUEL" => "JUDGE-ERROR the reachability oracle ran out of fuel (never expected)"
+  | some why =>
+    if modelAp v == impl then
+      s!"KNOWN D23 articulation_points over UndirectedAdaptor walks edges().target(), which is the node itself for incoming edges: {why}"
+    else s!"SPECFAIL {why}"
+
+/-- an `ap` line on a view classified as D6 (see `d6ViewB`): as `stepApKnown`, the model runs on the view
+with the leaked ids -/
+def stepApD6 (v mv : View) (impl : String) : String :=
+  if impl == "panic" then "SPECFAIL articulation_points panicked" else
+  match judgeAp v.g (parseNats impl) with
+  | none => cmpExact (modelAp mv) impl
+  | some "ORACLE-FUEL" => "JUDGE-ERROR the reachability oracle ran out of fuel (never expected)"
+  | some why =>
+    if modelAp mv == impl then
+      s!"KNOWN D6 articulation_points walks edges from nodes the filter excludes (MatrixGraph incoming edges have their endpoints swapped, NodeFiltered tests the wrong one): {why}"
+    else s!"SPECFAIL {why}"
+
+/-- a `law …` line: the harness checked a law against the implementation itself -/
+def stepLaw (req : List String) (impl : String) : String :=
+  if impl == "ok" then "ok" else s!"SPECFAIL law `{String.intercalate " " req}` does not hold: {impl}"
+
+def isMatrixFilteredUndirected (req : List String) : Bool :=
+  ((field? req "base").getD "").startsWith "MatrixGraph" && field? req "ad" == some "UndirectedAdaptor(NodeFiltered)" &&
+  field? req "via" == some "edges"
+
+def isUndirectedAdaptor (req : List String) : Bool :=
+  ((field? req "ad").getD "").startsWith "UndirectedAdaptor" && field? req "via" == some "edges"
+
 def step (d : DState) (req : List String) (impl : String) : DState × String :=
   match req with
   | "case" :: k :: _ => ({}, s!"case {k}")
@@ -213,18 +304,29 @@ def step (d : DState) (req : List String) (impl : String) : DState × String :=
     | none => (d, "SPECFAIL unparsable graph line")
     | some v =>
       if graphScopeB v then ({ v := v, ok := true }, "ok")
+      else if isUndirectedAdaptor req && d23ViewB v then
+        ({ v := v, ok := true, known := some "D23" },
+         "KNOWN D23 UndirectedAdaptor::edges reports incoming edges with their stored orientation (target() = the node itself)")
+      else if isMatrixFilteredUndirected req && d6ViewB v then
+        ({ v := v, ok := true, known := some "D6", mv := d6ModelView v (parsePairs ((field? req "xix").getD "-")) },
+         "KNOWN D6 MatrixGraph::edges_directed(_, Incoming) yields (a, predecessor): NodeFiltered lets edges from excluded nodes through")
       else if !wfB v.g then
         ({ v := v, ok := false }, "SPECFAIL side condition WellFormed does not hold: node_identifiers() repeats a node or an edge of the abstract graph joins an id it does not list")
       else if !viewOkB v then
         ({ v := v, ok := false }, "SPECFAIL side condition ViewOk does not hold: neighbour iteration of this encoding does not describe the abstract graph")
       else ({ v := v, ok := false }, "SPECFAIL side condition ViewOk does not hold: neighbours are enumerated for an id that is not a node")
-  | ["sf", root] =>
+  | "sf" :: root :: via =>
     if !d.ok then (d, "SPECFAIL no valid graph") else
+    if d.known.isSome then (d, "SPECFAIL bad request: simple_fast is judged on the neighbors() view") else
+    if !(via == [] || via == ["clone"] || via == ["clonefrom"]) then (d, s!"SPECFAIL bad request {req}") else
     match root.toNat? with
     | none => (d, "SPECFAIL bad request")
     | some r => (d, stepSf d.v r impl)
   | ["ap"] =>
-    if !d.ok then (d, "SPECFAIL no valid graph") else (d, stepAp d.v impl)
+    if !d.ok then (d, "SPECFAIL no valid graph") else
+    if d.known == some "D6" then (d, stepApD6 d.v d.mv impl) else
+    if d.known.isSome then (d, stepApKnown d.v impl) else (d, stepAp d.v impl)
+  | "law" :: _ => (d, stepLaw req impl)
   | _ => (d, s!"SPECFAIL bad request {req}")
 
 end PetgraphModel.C16
